@@ -1,6 +1,656 @@
-//! stub: domain `json` (filled in by its builder)
-use crate::Ints;
+//! C16 / C20: save / load and the fallible constructors.  Mirror of coq/theories/Run/RunJson.v.
+//!
+//! JSON tree encoding (prefix, all integers):
+//!   0 null | 1 b bool | 2 z integer | 3 bits float | 4 n cp* string | 5 n item* array
+//!   6 n (key item)* object, key = 0 n cp* (text) | 1 z (decimal spelling of z) | 7 d date string of day d
+//! Object encoding:  kind payload
+//!   0 Dual <dual> | 1 Dual2 <dual2> (numenc)            2 Cal  nmask mask* nhols hols*
+//!   3 UnionCal ncals cal* has_settle [ns cal*]           4 NamedCal name
+//!   5 FXRates nq (name name number has_settle [d])* has_base [name] order(0|1|2)
+//!   6 Curve nodekind(0|1|2) nn (day value)* rule(0..5) id(name) conv(0..10) modifier(0..4)
+//!           has_base [bits] calkind(0 Cal|1 UnionCal|2 NamedCal) cal
+//!   7|8|9 PPSpline F64|Dual|Dual2: k nt t* has_c [nc c*]
+//! Text is returned as `nbytes byte*`.
+use crate::cal::Rd;
+use crate::dates::{from_n, to_n};
+use crate::numenc::{read_dual, read_dual2, read_f, read_fs, read_name, read_names, read_number, write_number};
+use crate::{f2i, guard, i2f, Ints};
+use chrono::NaiveDateTime;
+use indexmap::IndexMap;
+use rateslib::calendars::{Cal, CalType, Convention, DateRoll, Modifier, NamedCal, UnionCal};
+use rateslib::curves::Nodes;
+use rateslib::dual::{ADOrder, Dual, Dual2, Gradient1, Gradient2, Vars};
+use rateslib::fx::rates::{Ccy, FXPair, FXRate, FXRates};
+use rateslib::splines::PPSpline;
+use rateslib::verif_hooks::json_hooks::{Tagged, KINDS};
+use std::panic::{catch_unwind, AssertUnwindSafe};
 
-pub fn run(_op: &str, _a: &Ints) -> Ints {
-    vec![-1]
+// ------------------------------------------------------------------------------------------ text
+fn push_str_lit(s: &str, out: &mut String) {
+    out.push('"');
+    for c in s.chars() {
+        match c {
+            '"' => out.push_str("\\\""),
+            '\\' => out.push_str("\\\\"),
+            c if (c as u32) < 0x20 => out.push_str(&format!("\\u{:04x}", c as u32)),
+            c => out.push(c),
+        }
+    }
+    out.push('"');
+}
+fn date_text(d: i128) -> String {
+    from_n(d).format("%Y-%m-%dT%H:%M:%S").to_string()
+}
+fn cps(v: &[i128]) -> String {
+    v.iter().map(|c| char::from_u32(*c as u32).unwrap_or('\u{fffd}')).collect()
+}
+fn print_tree(r: &mut Rd, out: &mut String) {
+    match r.next() {
+        0 => out.push_str("null"),
+        1 => out.push_str(if r.next() != 0 { "true" } else { "false" }),
+        2 => out.push_str(&r.next().to_string()),
+        3 => {
+            let x = i2f(r.next());
+            if x.is_finite() {
+                out.push_str(&format!("{:?}", x));
+            } else {
+                out.push_str("null");
+            }
+        }
+        4 => {
+            let n = r.next() as usize;
+            push_str_lit(&cps(&r.take(n)), out);
+        }
+        7 => push_str_lit(&date_text(r.next()), out),
+        5 => {
+            let n = r.next() as usize;
+            out.push('[');
+            for i in 0..n {
+                if i > 0 {
+                    out.push(',');
+                }
+                print_tree(r, out);
+            }
+            out.push(']');
+        }
+        6 => {
+            let n = r.next() as usize;
+            out.push('{');
+            for i in 0..n {
+                if i > 0 {
+                    out.push(',');
+                }
+                match r.next() {
+                    0 => {
+                        let m = r.next() as usize;
+                        push_str_lit(&cps(&r.take(m)), out);
+                    }
+                    _ => push_str_lit(&r.next().to_string(), out),
+                }
+                out.push(':');
+                print_tree(r, out);
+            }
+            out.push('}');
+        }
+        _ => panic!("bad tree tag"),
+    }
+}
+fn text_out(s: &str, out: &mut Ints) {
+    out.push(s.len() as i128);
+    out.extend(s.bytes().map(|b| b as i128));
+}
+fn kind_idx(k: &str) -> i128 {
+    KINDS.iter().position(|x| *x == k).unwrap() as i128
+}
+
+/// outcome of a load: `0 kind nshape shape* ntext text` | 1 | 2
+fn load_out(res: std::thread::Result<Result<Tagged, String>>) -> Ints {
+    match res {
+        Err(_) => vec![2],
+        Ok(Err(_)) => vec![1],
+        Ok(Ok(t)) => {
+            let mut out = vec![0, kind_idx(t.kind())];
+            let sh = t.shape();
+            out.push(sh.len() as i128);
+            out.extend(sh.iter().map(|x| *x as i128));
+            match t.to_json() {
+                Ok(s) => text_out(&s, &mut out),
+                Err(_) => out.push(-1),
+            }
+            out
+        }
+    }
+}
+
+// ------------------------------------------------------------------------------------------ objects
+fn read_cal(r: &mut Rd) -> Cal {
+    let nm = r.next() as usize;
+    let mask: Vec<u8> = r.take(nm).iter().map(|x| *x as u8).collect();
+    let nh = r.next() as usize;
+    let hols = r.take(nh).iter().map(|x| from_n(*x)).collect();
+    Cal::new(hols, mask)
+}
+fn read_union(r: &mut Rd) -> UnionCal {
+    let nc = r.next() as usize;
+    let cals: Vec<Cal> = (0..nc).map(|_| read_cal(r)).collect();
+    let settle = if r.next() == 1 {
+        let ns = r.next() as usize;
+        Some((0..ns).map(|_| read_cal(r)).collect())
+    } else {
+        None
+    };
+    UnionCal::new(cals, settle)
+}
+fn read_fx(r: &mut Rd) -> Result<FXRates, ()> {
+    let nq = r.next() as usize;
+    let mut rates = Vec::new();
+    let mut bad = false;
+    for _ in 0..nq {
+        let l = read_name(r);
+        let rr = read_name(r);
+        let x = read_number(r);
+        let s = if r.next() == 1 { Some(from_n(r.next())) } else { None };
+        match FXRate::try_new(&l, &rr, x, s) {
+            Ok(q) => rates.push(q),
+            Err(_) => bad = true,
+        }
+    }
+    let base = if r.next() == 1 { Some(read_name(r)) } else { None };
+    let order = r.next();
+    if bad {
+        return Err(());
+    }
+    let b = match base {
+        Some(s) => Some(Ccy::try_new(&s).map_err(|_| ())?),
+        None => None,
+    };
+    let mut fx = FXRates::try_new(rates, b).map_err(|_| ())?;
+    let ad = match order {
+        0 => ADOrder::Zero,
+        2 => ADOrder::Two,
+        _ => ADOrder::One,
+    };
+    fx.set_ad_order(ad).map_err(|_| ())?;
+    Ok(fx)
+}
+const CONVS: [Convention; 11] = [
+    Convention::One,
+    Convention::OnePlus,
+    Convention::Act365F,
+    Convention::Act365FPlus,
+    Convention::Act360,
+    Convention::ThirtyE360,
+    Convention::Thirty360,
+    Convention::Thirty360ISDA,
+    Convention::ActActISDA,
+    Convention::ActActICMA,
+    Convention::Bus252,
+];
+const MODS: [Modifier; 5] = [Modifier::Act, Modifier::F, Modifier::ModF, Modifier::P, Modifier::ModP];
+// order of Model/Json.v rule_names
+const RULES: [&str; 6] = ["log_linear", "linear", "linear_zero_rate", "flat_forward", "flat_backward", "null"];
+
+fn read_curve(r: &mut Rd) -> Result<Tagged, ()> {
+    let nk = r.next();
+    let nn = r.next() as usize;
+    let nodes = match nk {
+        0 => Nodes::F64(IndexMap::from_iter((0..nn).map(|_| (from_n(r.next()), read_f(r))))),
+        1 => Nodes::Dual(IndexMap::from_iter((0..nn).map(|_| (from_n(r.next()), read_dual(r))))),
+        _ => Nodes::Dual2(IndexMap::from_iter((0..nn).map(|_| (from_n(r.next()), read_dual2(r))))),
+    };
+    let rule = RULES[r.next() as usize];
+    let id = read_name(r);
+    let conv = CONVS[r.next() as usize];
+    let md = MODS[r.next() as usize];
+    let base = if r.next() == 1 { Some(read_f(r)) } else { None };
+    let cal = match r.next() {
+        0 => CalType::Cal(read_cal(r)),
+        1 => CalType::UnionCal(read_union(r)),
+        _ => CalType::NamedCal(NamedCal::try_new(&read_name(r)).map_err(|_| ())?),
+    };
+    Tagged::curve(nodes, rule, &id, conv, md, base, cal).map_err(|_| ())
+}
+fn read_spline(kind: i128, r: &mut Rd) -> Tagged {
+    let k = r.next() as usize;
+    let nt = r.next() as usize;
+    let t = read_fs(r, nt);
+    let has_c = r.next() == 1;
+    match kind {
+        7 => {
+            let c = if has_c {
+                let nc = r.next() as usize;
+                Some(read_fs(r, nc))
+            } else {
+                None
+            };
+            Tagged::ppspline_f64(k, t, c)
+        }
+        8 => {
+            let c = if has_c {
+                let nc = r.next() as usize;
+                Some((0..nc).map(|_| read_dual(r)).collect())
+            } else {
+                None
+            };
+            Tagged::ppspline_dual(k, t, c)
+        }
+        _ => {
+            let c = if has_c {
+                let nc = r.next() as usize;
+                Some((0..nc).map(|_| read_dual2(r)).collect())
+            } else {
+                None
+            };
+            Tagged::ppspline_dual2(k, t, c)
+        }
+    }
+}
+/// Err(()) = a constructor returned an error
+fn read_obj(r: &mut Rd) -> Result<Tagged, ()> {
+    let kind = r.next();
+    Ok(match kind {
+        0 => Tagged::of_dual(read_dual(r)),
+        1 => Tagged::of_dual2(read_dual2(r)),
+        2 => Tagged::of_cal(read_cal(r)),
+        3 => Tagged::of_union_cal(read_union(r)),
+        4 => Tagged::of_named_cal(NamedCal::try_new(&read_name(r)).map_err(|_| ())?),
+        5 => Tagged::of_fxrates(read_fx(r)?),
+        6 => read_curve(r)?,
+        7 | 8 | 9 => read_spline(kind, r),
+        _ => panic!("bad object kind"),
+    })
+}
+
+// ------------------------------------------------------------------------------------------ queries
+fn sample_days(extra: &[i128]) -> Vec<i128> {
+    let mut v: Vec<i128> = vec![0, 10956, 19000, 19723, 19812, 19813, 19814, 30000, 84370];
+    for d in extra {
+        for k in -2..3 {
+            v.push(d + k);
+        }
+    }
+    v
+}
+fn cal_dump<C: DateRoll>(c: &C, days: &[i128], out: &mut Ints) {
+    for d in days {
+        let dt = from_n(*d);
+        out.push(c.is_bus_day(&dt) as i128);
+        out.push(c.is_settlement(&dt) as i128);
+        out.push(c.is_weekday(&dt) as i128);
+        out.push(c.is_holiday(&dt) as i128);
+    }
+}
+fn cal_days(c: &Cal) -> Vec<i128> {
+    // the holidays themselves, recovered through the serialised form
+    let v: serde_json::Value = serde_json::to_value(c).expect("cal json");
+    v["holidays"]
+        .as_array()
+        .map(|a| {
+            a.iter()
+                .filter_map(|s| s.as_str())
+                .filter_map(|s| NaiveDateTime::parse_from_str(s, "%Y-%m-%dT%H:%M:%S").ok())
+                .map(|d| to_n(&d))
+                .collect()
+        })
+        .unwrap_or_default()
+}
+/// everything the public API answers about the object, as integers (floats as bit patterns)
+fn query_dump(t: &Tagged, probe_days: &[i128]) -> Ints {
+    let mut out: Ints = vec![];
+    let probe = vec!["zz_absent".to_string()];
+    if let Some(d) = t.as_dual() {
+        out.push(f2i(d.real()));
+        let mut vars: Vec<String> = d.vars().iter().cloned().collect();
+        out.extend(d.gradient1(vars.clone()).iter().map(|x| f2i(*x)));
+        vars.reverse();
+        vars.extend(probe.clone());
+        out.extend(d.gradient1(vars).iter().map(|x| f2i(*x)));
+    }
+    if let Some(d) = t.as_dual2() {
+        out.push(f2i(d.real()));
+        let mut vars: Vec<String> = d.vars().iter().cloned().collect();
+        out.extend(d.gradient1(vars.clone()).iter().map(|x| f2i(*x)));
+        out.extend(d.gradient2(vars.clone()).iter().map(|x| f2i(*x)));
+        vars.reverse();
+        vars.extend(probe.clone());
+        out.extend(d.gradient1(vars.clone()).iter().map(|x| f2i(*x)));
+        out.extend(d.gradient2(vars).iter().map(|x| f2i(*x)));
+    }
+    if let Some(c) = t.as_cal() {
+        cal_dump(c, &sample_days(probe_days), &mut out);
+    }
+    if let Some(c) = t.as_union_cal() {
+        cal_dump(c, &sample_days(probe_days), &mut out);
+    }
+    if let Some(c) = t.as_named_cal() {
+        cal_dump(c, &sample_days(probe_days), &mut out);
+        for y in [1975, 2000, 2024, 2100, 2199] {
+            let d0 = to_n(&rateslib::calendars::ndt(y, 1, 1));
+            for d in d0..d0 + 366 {
+                let dt = from_n(d);
+                out.push(c.is_bus_day(&dt) as i128 + 2 * (c.is_settlement(&dt) as i128));
+            }
+        }
+    }
+    if let Some(f) = t.as_fxrates() {
+        let cs = t.fx_currencies().unwrap();
+        for a in cs.iter() {
+            for b in cs.iter() {
+                let (x, y) = (Ccy::try_new(a).unwrap(), Ccy::try_new(b).unwrap());
+                match f.rate(&x, &y) {
+                    Some(n) => write_number(&n, &mut out),
+                    None => out.push(-1),
+                }
+            }
+        }
+    }
+    if let Some(nodes) = t.curve_nodes() {
+        let mut days: Vec<i128> = vec![];
+        for (k, v) in nodes.iter() {
+            out.push(*k as i128);
+            write_number(v, &mut out);
+            days.push((*k as i128).div_euclid(86400));
+        }
+        let mut probes: Vec<i128> = vec![];
+        for w in days.windows(2) {
+            probes.push(w[0]);
+            probes.push((w[0] + w[1]) / 2);
+        }
+        if let Some(l) = days.last() {
+            probes.push(*l);
+            probes.push(*l + 40);
+        }
+        if let Some(f) = days.first() {
+            probes.push(*f - 3);
+        }
+        for d in probes {
+            let dt = from_n(d);
+            match catch_unwind(AssertUnwindSafe(|| t.curve_value(&dt).unwrap())) {
+                Ok(n) => write_number(&n, &mut out),
+                Err(_) => out.push(-2),
+            }
+            match catch_unwind(AssertUnwindSafe(|| t.curve_index_value(&dt).unwrap())) {
+                Ok(Ok(n)) => write_number(&n, &mut out),
+                Ok(Err(_)) => out.push(-1),
+                Err(_) => out.push(-2),
+            }
+            let (b, s) = t.curve_cal_flags(&dt).unwrap();
+            out.push(b as i128 + 2 * (s as i128));
+        }
+    }
+    macro_rules! spline_dump {
+        ($s:expr, $wr:expr) => {{
+            let s = $s;
+            out.push(*s.inner_k() as i128);
+            out.push(*s.inner_n() as i128);
+            let t = s.inner_t().clone();
+            out.extend(t.iter().map(|x| f2i(*x)));
+            if s.inner_has_c() && !t.is_empty() {
+                let (lo, hi) = (t[0], t[t.len() - 1]);
+                for i in 0..7 {
+                    let x = lo + (hi - lo) * (i as f64) / 6.0;
+                    for m in 0..3 {
+                        match catch_unwind(AssertUnwindSafe(|| s.eval(&x, m))) {
+                            Ok(Some(v)) => $wr(&v, &mut out),
+                            Ok(None) => out.push(-1),
+                            Err(_) => out.push(-2),
+                        }
+                    }
+                }
+            }
+        }};
+    }
+    if let Some(s) = t.as_ppspline_f64() {
+        spline_dump!(SpF(s), |v: &f64, o: &mut Ints| o.push(f2i(*v)));
+    }
+    if let Some(s) = t.as_ppspline_dual() {
+        spline_dump!(SpD(s), |v: &Dual, o: &mut Ints| crate::numenc::write_dual(v, o));
+    }
+    if let Some(s) = t.as_ppspline_dual2() {
+        spline_dump!(SpD2(s), |v: &Dual2, o: &mut Ints| crate::numenc::write_dual2(v, o));
+    }
+    out
+}
+// the three Python-facing spline wrappers expose their PPSpline only to the crate; the public
+// API of PPSpline<T> is reached through a serde copy
+struct SpF<'a>(&'a rateslib::splines::PPSplineF64);
+struct SpD<'a>(&'a rateslib::splines::PPSplineDual);
+struct SpD2<'a>(&'a rateslib::splines::PPSplineDual2);
+// (bincode writes a one-field struct exactly as it writes the field)
+macro_rules! spline_access {
+    ($w:ident, $t:ty) => {
+        impl<'a> $w<'a> {
+            fn pp(&self) -> PPSpline<$t> {
+                bincode::deserialize(&bincode::serialize(self.0).unwrap()).unwrap()
+            }
+            fn inner_k(&self) -> Box<usize> {
+                Box::new(*self.pp().k())
+            }
+            fn inner_n(&self) -> Box<usize> {
+                Box::new(*self.pp().n())
+            }
+            fn inner_t(&self) -> Box<Vec<f64>> {
+                Box::new(self.pp().t().clone())
+            }
+            fn inner_has_c(&self) -> bool {
+                self.pp().c().is_some()
+            }
+            fn eval(&self, x: &f64, m: usize) -> Option<$t> {
+                self.pp().ppdnev_single(x, m).ok()
+            }
+        }
+    };
+}
+spline_access!(SpF, f64);
+spline_access!(SpD, Dual);
+spline_access!(SpD2, Dual2);
+
+fn probe_days_of(t: &Tagged) -> Vec<i128> {
+    if let Some(c) = t.as_cal() {
+        return cal_days(c).into_iter().take(12).collect();
+    }
+    vec![]
+}
+
+// ------------------------------------------------------------------------------------------ ops
+fn shape_out(t: &Tagged, out: &mut Ints) {
+    let sh = t.shape();
+    out.push(sh.len() as i128);
+    out.extend(sh.iter().map(|x| *x as i128));
+}
+
+pub fn run(op: &str, a: &Ints) -> Ints {
+    let mut r = Rd::new(a);
+    match op {
+        // tagged from_json of a tree
+        "load" => {
+            let mut s = String::new();
+            print_tree(&mut r, &mut s);
+            load_out(catch_unwind(AssertUnwindSafe(|| Tagged::from_json(&s))))
+        }
+        // direct T::from_json of a tree
+        "loadd" => {
+            let k = KINDS[r.next() as usize];
+            let mut s = String::new();
+            print_tree(&mut r, &mut s);
+            load_out(catch_unwind(AssertUnwindSafe(|| Tagged::from_json_direct(k, &s))))
+        }
+        // the text a tree is printed as (for replays)
+        "text" => {
+            let mut s = String::new();
+            print_tree(&mut r, &mut s);
+            let mut out = vec![];
+            text_out(&s, &mut out);
+            out
+        }
+        // raw bytes to the tagged from_json: outcome class only
+        "raw" => {
+            let bytes: Vec<u8> = r.rest().iter().map(|b| *b as u8).collect();
+            let s = String::from_utf8_lossy(&bytes).to_string();
+            match catch_unwind(AssertUnwindSafe(|| Tagged::from_json(&s))) {
+                Err(_) => vec![2],
+                Ok(Err(_)) => vec![1],
+                Ok(Ok(t)) => vec![0, kind_idx(t.kind())],
+            }
+        }
+        // to_json (tagged) of a constructed object
+        "enc" | "encd" => match catch_unwind(AssertUnwindSafe(|| read_obj(&mut r))) {
+            Err(_) => vec![2],
+            Ok(Err(())) => vec![1],
+            Ok(Ok(t)) => {
+                let mut out = vec![0];
+                let s = if op == "enc" { t.to_json() } else { t.to_json_direct() };
+                match s {
+                    Ok(s) => text_out(&s, &mut out),
+                    Err(_) => out.push(-1),
+                }
+                out
+            }
+        },
+        // round trips of a constructed object:
+        //   0 tagged_eq direct_eq bincode_eq q_tagged q_direct q_bincode same_text [first differing query index]
+        "rt" => match catch_unwind(AssertUnwindSafe(|| read_obj(&mut r))) {
+            Err(_) => vec![2],
+            Ok(Err(())) => vec![1],
+            Ok(Ok(t)) => guard(|| {
+                let kind = t.kind();
+                let days = probe_days_of(&t);
+                let q0 = query_dump(&t, &days);
+                let mut out: Ints = vec![];
+                let txt = t.to_json().map_err(|_| ())?;
+                let l1 = Tagged::from_json(&txt).map_err(|_| ())?;
+                let l2 = Tagged::from_json_direct(kind, &t.to_json_direct().map_err(|_| ())?).map_err(|_| ())?;
+                let l3 = Tagged::from_bincode(kind, &t.to_bincode().map_err(|_| ())?).map_err(|_| ())?;
+                out.push(t.same(&l1) as i128);
+                out.push(t.same(&l2) as i128);
+                out.push(t.same(&l3) as i128);
+                let (q1, q2, q3) = (query_dump(&l1, &days), query_dump(&l2, &days), query_dump(&l3, &days));
+                out.push((q0 == q1) as i128);
+                out.push((q0 == q2) as i128);
+                out.push((q0 == q3) as i128);
+                // saving the loaded object again gives the same text (idempotence of the pair)
+                out.push((l1.to_json().map_err(|_| ())? == txt) as i128);
+                out.push(q0.len() as i128);
+                let firstdiff = q0.iter().zip(q1.iter()).position(|(x, y)| x != y).map_or(-1, |p| p as i128);
+                out.push(firstdiff);
+                Ok(out)
+            }),
+        },
+        // bare doubles through serde_json text: 1 = survives
+        "f64rt" => a
+            .iter()
+            .map(|b| {
+                let x = i2f(*b);
+                let s = serde_json::to_string(&x).unwrap();
+                match serde_json::from_str::<f64>(&s) {
+                    Ok(y) => (y.to_bits() == x.to_bits()) as i128,
+                    Err(_) => 0,
+                }
+            })
+            .collect(),
+        // ---- constructors (C20)
+        "dual" => {
+            let vars = read_names(&mut r);
+            let re = read_f(&mut r);
+            let nd = r.next() as usize;
+            let du = read_fs(&mut r, nd);
+            guard(|| {
+                let d = Dual::try_new(re, vars, du).map_err(|_| ())?;
+                Ok(vec![d.vars().len() as i128, d.dual().len() as i128])
+            })
+        }
+        "dual2" => {
+            let vars = read_names(&mut r);
+            let re = read_f(&mut r);
+            let nd = r.next() as usize;
+            let du = read_fs(&mut r, nd);
+            let ndd = r.next() as usize;
+            let dd = read_fs(&mut r, ndd);
+            guard(|| {
+                let d = Dual2::try_new(re, vars, du, dd).map_err(|_| ())?;
+                Ok(vec![
+                    d.vars().len() as i128,
+                    d.dual().len() as i128,
+                    d.dual2().shape()[0] as i128,
+                    d.dual2().shape()[1] as i128,
+                ])
+            })
+        }
+        "ccy" => {
+            let s = read_name(&mut r);
+            guard(|| {
+                let c = Ccy::try_new(&s).map_err(|_| ())?;
+                let v: serde_json::Value = serde_json::to_value(&c).map_err(|_| ())?;
+                let nm = v["name"].as_str().ok_or(())?.to_string();
+                let mut out = vec![];
+                crate::numenc::write_name(&nm, &mut out);
+                Ok(out)
+            })
+        }
+        "fxpair" => {
+            let (x, y) = (read_name(&mut r), read_name(&mut r));
+            guard(|| {
+                let p = FXPair::try_new(&x, &y).map_err(|_| ())?;
+                let mut out = vec![];
+                crate::numenc::write_name(&format!("{}", p), &mut out);
+                Ok(out)
+            })
+        }
+        "fxrate" => {
+            let (x, y) = (read_name(&mut r), read_name(&mut r));
+            let n = read_number(&mut r);
+            guard(|| {
+                FXRate::try_new(&x, &y, n, None).map_err(|_| ())?;
+                Ok(vec![])
+            })
+        }
+        "fxrates" => guard(|| {
+            let f = read_fx(&mut r)?;
+            let t = Tagged::of_fxrates(f);
+            let mut out = vec![];
+            shape_out(&t, &mut out);
+            Ok(out)
+        }),
+        "named" => {
+            let s = read_name(&mut r);
+            guard(|| {
+                let t = Tagged::of_named_cal(NamedCal::try_new(&s).map_err(|_| ())?);
+                let mut out = vec![];
+                shape_out(&t, &mut out);
+                Ok(out)
+            })
+        }
+        "calnew" => {
+            let nm = r.next() as usize;
+            let mask: Vec<u8> = r.take(nm).iter().map(|x| *x as u8).collect();
+            guard(|| {
+                let c = Cal::new(vec![], mask);
+                let t = Tagged::of_cal(c);
+                let mut out = vec![];
+                shape_out(&t, &mut out);
+                Ok(out)
+            })
+        }
+        // csolve on PPSpline<f64>: k nt t* ntau tau* ny y* left_n right_n allow_lsq
+        //   -> 0 nc c-bits* | 1 | 2     (the constructor's asserts are part of the call)
+        "csolve" => {
+            let k = r.next() as usize;
+            let nt = r.next() as usize;
+            let t = read_fs(&mut r, nt);
+            let ntau = r.next() as usize;
+            let tau = read_fs(&mut r, ntau);
+            let ny = r.next() as usize;
+            let y = read_fs(&mut r, ny);
+            let (ln, rn, lsq) = (r.next() as usize, r.next() as usize, r.next() != 0);
+            guard(|| {
+                let mut s: PPSpline<f64> = PPSpline::new(k, t, None);
+                s.csolve(&tau, &y, ln, rn, lsq).map_err(|_| ())?;
+                let c = s.c().as_ref().ok_or(())?;
+                let mut out = vec![c.len() as i128];
+                out.extend(c.iter().map(|x| f2i(*x)));
+                Ok(out)
+            })
+        }
+        _ => vec![-1],
+    }
 }
